@@ -276,7 +276,7 @@ for name, inst, tags, tier in [
     ("release_unallocated_unused", "unused unallocated Bump: 0 base-allocator calls", [], "quick"),
     ("release_drop_over_up1_c2", "over-aligned base allocator (header align 32): release layout alignment", ["c2", "several"], "quick"),
     ("release_reset_over_down1_c2", "over-aligned base allocator, down, reset", ["c2"], "thorough"),
-    ("release_drop_stateful_down1_c2", "stateful base allocator (48-byte header), down", ["c2", "several"], "thorough"),
+    ("release_drop_stateful_down1_c2", "stateful base allocator (48-byte header), down; the stub checks that its handle does not live inside the block it is asked to release", ["c2", "several"], "quick"),
 ]:
     A("chunks", name, ["C05"], inst, tags=tags, tier=tier, mem_gb=10, timeout_s=2400, bounds=C5B)
 
